@@ -378,6 +378,25 @@ Fixpoint map_set (kvs : list (gval * gval)) (k w : gval) : list (gval * gval) :=
   | (k', w') :: r => if gkey_eqb k' k then (k', w) :: r else (k', w') :: map_set r k w
   end.
 Definition map_entries (d : gval) : list (gval * gval) := match d with GVMap kvs => kvs | _ => [] end.
+
+(* reflect.Type.Comparable of a Go type (slices, maps and slice-kinded leaves are not; arrays and structs are when their parts are) *)
+Fixpoint ty_comparable (t : gty) : bool :=
+  match t with
+  | GLeaf _ LSlice | GSlice _ | GMap _ _ => false
+  | GLeaf _ LVal | GPtr _ | GIface => true
+  | GArray _ e => ty_comparable e
+  | GStruct fs => (fix all (fs : list (string * string * gty)) : bool :=
+                     match fs with [] => true | (_, _, ft) :: r => ty_comparable ft && all r end) fs
+  end.
+(* injectors.go isHashable (fix 280217e), on a key whose STATIC type is a valid map key type: what decides is the dynamic type of every
+   value held by an interface, directly or inside array elements / struct fields.  A key that is not hashable is refused
+   (errMapKeyNotHashable); before the fix reflect.Value.SetMapIndex panicked with "hash of unhashable type". *)
+Fixpoint ghashable (g : gval) {struct g} : bool :=
+  match g with
+  | GVIface dt x => ty_comparable dt && ghashable x
+  | GVArray es | GVStruct es => (fix all (l : list gval) : bool := match l with [] => true | x :: r => ghashable x && all r end) es
+  | _ => true
+  end.
 Definition arr_elems (d : gval) : list gval := match d with GVArray es | GVStruct es | GVSlice es => es | _ => [] end.
 
 Fixpoint set_nth {A} (l : list A) (i : nat) (x : A) : list A :=
@@ -446,7 +465,9 @@ Section Decode.
           let (size, rest) := r in
           if size <? 0 then ERR
           else es <-! dec_entries_g v (dec_elem_with (dec_var k) kt) (dec_elem_with (dec_var w) vt) (S (List.length rest)) size rest;
-               kvs <-! all_read es; OK (fold_left (fun m kw => map_set m (fst kw) (snd kw)) kvs old) in
+               kvs <-! all_read es;
+               if forallb (fun kw => ghashable (fst kw)) kvs                (* mapInjector.setElem: isHashable(newKey) else error *)
+               then OK (fold_left (fun m kw => map_set m (fst kw) (snd kw)) kvs old) else ERR in
         match gt with
         | GMap kt vt => if wasNull then OK (true, GVNilMap) else m <-! body kt vt (map_entries d); OK (false, GVMap m)   (* adjustMapSize keeps a non-nil map *)
         | GIface =>
